@@ -430,6 +430,56 @@ def log_oracles(recs):
     return bad, known
 
 
+def per_execution(v, name, recs, hdr, sp, lock):
+    """Validate every execution of a batch separately: strict; a strict rejection is retried with
+    the policy left open (DRIFT if accepted) and confirmed by one re-run before it is reported.
+    Returns a summed TlcResult-like object, or None if a violation was recorded."""
+    d = rundir(PROP)
+    execs = []
+    for r in recs:
+        if r["e"] == "Reset":
+            execs.append([])
+        if execs:
+            execs[-1].append(r)
+    tot = TlcResult()
+    tot.tracelen = 0
+    for i, ev in enumerate(execs):
+        p = os.path.join(d, "%s.x%d.ndjson" % (name, i))
+        with open(p, "w") as f:
+            for r in ev:
+                f.write(json.dumps(r) + "\n")
+        r1 = validate_trace("IoTrace.tla", "IoTrace.cfg", p, header=hdr, timeout=300, metaname="c14x_%s_%d" % (name, i))
+        tot.distinct += r1.distinct
+        tot.generated += r1.generated
+        tot.wall += r1.wall
+        tot.tracelen += r1.tracelen or 0
+        if r1.accepted:
+            continue
+        lines = open(r1.trace_with_header).read().splitlines()
+        k = r1.maxl or 1
+        ctx = " | ".join(lines[max(1, k - 4):k])
+        r2 = validate_trace("IoTrace.tla", "IoTrace_lib.cfg", p, header=hdr, timeout=300, metaname="c14xl_%s_%d" % (name, i))
+        if r2.accepted and not r2.violated:
+            with lock:
+                v.drift.append("%s execution %d: history follows Io.tla only with the policy left open (low-water delivery "
+                               "points / promptness of STOP); first strict mismatch at record %d: %s" % (name, i, k, ctx[-400:]))
+            continue
+        r3 = validate_trace("IoTrace.tla", "IoTrace_lib.cfg", p, header=hdr, timeout=300, metaname="c14xm_%s_%d" % (name, i))
+        if r3.accepted and not r3.violated:
+            continue
+        k2 = r3.maxl or 1
+        ctx = " | ".join(lines[max(1, k2 - 4):k2])
+        rp = save_replay(PROP, "%s.x%d.rejected.ndjson" % (name, i), src=r1.trace_with_header)
+        save_replay(PROP, name + ".sched", src=sp)
+        why = ("invariant %s violated in the matched prefix" % r3.violated) if r3.violated else \
+            "no behaviour of Io.tla explains record %d" % k2
+        with lock:
+            v.violation("trace rejected (%s execution %d): %s; last records: %s" % (name, i, why, ctx[-600:]), rp)
+        return None
+    tot.accepted = True
+    return tot
+
+
 def run_batch(v, drv, name, sched_text, seed, lock, kf_listed):
     d = rundir(PROP)
     sp = os.path.join(d, name + ".sched")
@@ -496,28 +546,17 @@ def run_batch(v, drv, name, sched_text, seed, lock, kf_listed):
                 p = save_replay(PROP, name + ".sched", src=sp)
                 v.violation("cleanup handler before a handler (%s): %s" % (name, known[0]), p)
                 return
-    r = validate_trace("IoTrace.tla", "IoTrace.cfg", prepped, header=hdr, timeout=900, metaname="c14tr_" + name)
-    if not r.accepted:
-        r2 = validate_trace("IoTrace.tla", "IoTrace_lib.cfg", prepped, header=hdr, timeout=900, metaname="c14trl_" + name)
-        lines = open(r.trace_with_header).read().splitlines()
-        k = r.maxl or 1
-        ctx = " | ".join(lines[max(1, k - 4):k])
-        if r2.accepted and not r2.violated:
-            with lock:
-                v.drift.append("%s: history follows Io.tla only with the policy left open (low-water delivery points / "
-                               "promptness of STOP); first strict mismatch at record %d: %s" % (name, k, ctx[-400:]))
-        else:
-            r3 = validate_trace("IoTrace.tla", "IoTrace_lib.cfg", prepped, header=hdr, timeout=900, metaname="c14trm_" + name)
-            if not r3.accepted or r3.violated:
-                k2 = r3.maxl or 1
-                ctx = " | ".join(lines[max(1, k2 - 4):k2])
-                p = save_replay(PROP, name + ".rejected.ndjson", src=r.trace_with_header)
-                save_replay(PROP, name + ".sched", src=sp)
-                why = ("invariant %s violated in the matched prefix" % r3.violated) if r3.violated else \
-                    "no behaviour of Io.tla explains record %d" % k2
-                with lock:
-                    v.violation("trace rejected (%s): %s; last records: %s" % (name, why, ctx[-600:]), p)
-                return
+    try:
+        r = validate_trace("IoTrace.tla", "IoTrace.cfg", prepped, header=hdr, timeout=400, metaname="c14tr_" + name)
+    except Broken:
+        r = None      # timed out: judge the executions one by one
+    if r is None or not r.accepted:
+        # A rejected execution makes the depth-first search revisit every alternative of the
+        # executions before it, so the batch is re-validated execution by execution.
+        st = per_execution(v, name, recs, hdr, sp, lock)
+        if st is None:
+            return
+        r = st
     if os.environ.get("C14_VERBOSE"):
         log("batch %s: %d executions, %d records, %d states, %.1fs" % (name, nexec, r.tracelen or 0, r.distinct, r.wall))
     with lock:
@@ -535,7 +574,7 @@ def traces(v, tier, seed):
     drv = build_driver("drv_io")
     rng = random.Random(seed * 7919 + 13)
     kf_listed = set(f.get("key") for f in known_findings(PROP)["findings"])
-    nsim, ntake, nrand = (600, 110, 90) if tier == "quick" else (3000, 600, 700)
+    nsim, ntake, nrand = (1000, 220, 220) if tier == "quick" else (4000, 900, 1200)
     if os.environ.get("C14_COUNTS"):      # debugging aid
         nsim, ntake, nrand = [int(x) for x in os.environ["C14_COUNTS"].split(",")]
     tl, rsim = tlc_schedules(seed, nsim)
